@@ -1,6 +1,7 @@
 package main
 
 import (
+	"go/types"
 	"fmt"
 	"go/ast"
 	"go/token"
@@ -378,6 +379,99 @@ func callChain(u *Universe, r *Report, fn *ssa.Function, owner string, names []s
 	}
 }
 
+// stage: a step of a pipeline, recognised by a characteristic effect (so that it is found whether
+// the step is a helper, is inlined into the pipeline function or is split into several helpers).
+type stage struct {
+	name  string
+	match func(d *deepFn, x dins) bool
+}
+
+func storeStage(name, addr string) stage {
+	return stage{name, func(d *deepFn, x dins) bool {
+		st, ok := x.in.(*ssa.Store)
+		return ok && d.name(x.n, st.Addr) == addr
+	}}
+}
+
+func callStage(name string, callees ...string) stage {
+	return stage{name, func(d *deepFn, x dins) bool {
+		c, ok := x.in.(*ssa.Call)
+		return ok && has(callees, calleeName(c))
+	}}
+}
+
+// stageOrder: every marker of a stage is preceded by every marker of the previous stage, and is
+// reached only on the error-free edge of the call that contains the previous stage.
+func stageOrder(u *Universe, r *Report, d *deepFn, owner string, stages []stage) map[string][]dins {
+	found := map[string][]dins{}
+	d.each(func(x dins) {
+		for _, st := range stages {
+			if st.match(d, x) {
+				found[st.name] = append(found[st.name], x)
+			}
+		}
+	})
+	for i, st := range stages {
+		if len(found[st.name]) == 0 {
+			r.Lost(owner + ": stage " + st.name)
+			return found
+		}
+		if i == 0 {
+			continue
+		}
+		prev := stages[i-1]
+		cons := owner + "/" + prev.name + " before " + st.name
+		bad := ""
+		pos := ""
+		for _, bm := range found[st.name] {
+			for _, am := range found[prev.name] {
+				if why := orderedGated(d, am, bm); why != "" && bad == "" {
+					bad, pos = why, d.pos(u, bm)
+				}
+			}
+		}
+		if bad != "" {
+			r.Bad(cons, pos, st.name+" "+bad+" "+prev.name)
+		} else {
+			r.OK(cons, d.pos(u, found[st.name][0]), "ordered and error-gated")
+		}
+	}
+	return found
+}
+
+func orderedGated(d *deepFn, a, b dins) string {
+	var common *dnode
+	for x := a.n; x != nil && common == nil; x = x.parent {
+		for y := b.n; y != nil; y = y.parent {
+			if x == y {
+				common = x
+				break
+			}
+		}
+	}
+	if common == nil {
+		return "is unrelated to"
+	}
+	pa, pb := lift(a, common), lift(b, common)
+	if pa == nil || pb == nil {
+		return "is unrelated to"
+	}
+	if pa == pb {
+		return ""
+	}
+	if !instrDominates(pa, pb) {
+		return "is not preceded on every path by"
+	}
+	if call, ok := pa.(*ssa.Call); ok && pa != a.in {
+		if ev := errResult(call); ev != nil {
+			if _, isIface := ev.Type().Underlying().(*types.Interface); isIface && !guardedByNilErr(common.fn, pb, call) {
+				return "runs even after a failure of"
+			}
+		}
+	}
+	return ""
+}
+
 // R05.3 server step order
 func ruleR05_3(w *World, r *Report) {
 	u := w.Server()
@@ -387,16 +481,39 @@ func ruleR05_3(w *World, r *Report) {
 		r.Lost("PushPullHandler.process")
 		return
 	}
-	callChain(u, r, fn, "PushPullHandler.process", []string{"initialize", "validatePushPullPack", "evaluatePushPullCase", "processSubscribeOrCreate", "pushOperations", "pullOperations", "commitToMongoDB"})
-	if cf := u.Fn(pService, "PushPullHandler", "commitToMongoDB"); cf != nil {
-		sts := storesTo(cf, "$0.resPushPullPack.CheckPoint")
-		if len(sts) == 0 {
-			r.Lost("commitToMongoDB: response checkpoint")
-		}
-		for _, st := range sts {
-			got := canonName(st.Val)
-			r.Check(got == "$0.currentCP", "commitToMongoDB/response checkpoint", u.Pos(st.Pos()), got, "the response carries "+got+" as checkpoint, expected the handler's currentCP")
-		}
+	d := deepOf(fn)
+	stageOrder(u, r, d, "PushPullHandler.process", []stage{
+		storeStage("initialise (reply channel set)", "$0.retCh"),
+		{"validate (read-only client refused)", func(d *deepFn, x dins) bool {
+			c, ok := x.in.(*ssa.Call)
+			if !ok || calleeName(c) != "New" {
+				return false
+			}
+			recv, _ := recvAndArgs(c)
+			k, isK := recv.(*ssa.Const)
+			if !isK {
+				return false
+			}
+			code, isInt := constInt(k)
+			if !isInt || errorCodeName(u, code) != "PushPullAbortionOfClient" {
+				return false
+			}
+			lits, _ := litStrings(x.n.fn, x.in)
+			return allPathsContain(lits, ".isReadOnly")
+		}},
+		storeStage("classify (case evaluated)", "$0.casePushPull"),
+		storeStage("subscribe/create (client entry bound)", "$0.subClientDoc"),
+		storeStage("push (operations numbered)", "$0.pushingOperations"),
+		callStage("pull (GetOperations)", "GetOperations"),
+		callStage("commit (InsertOperations/UpdateDatatype)", "InsertOperations", "UpdateDatatype"),
+	})
+	sts := d.stores("$0.resPushPullPack.CheckPoint")
+	if len(sts) == 0 {
+		r.Lost("process: response checkpoint")
+	}
+	for _, x := range sts {
+		got := d.name(x.n, x.in.(*ssa.Store).Val)
+		r.Check(got == "$0.currentCP", "process/response checkpoint", d.pos(u, x), got, "the response carries "+got+" as checkpoint, expected the handler's currentCP")
 	}
 }
 
